@@ -74,6 +74,7 @@ def run(check: Check):
   _debug_fold(check, repo.func(MOD, 'ForEachClientDebugBackend.__call__').nested('run'))
   _backend_runs(check)
   _pmap(check)
+  _shim_leaves(check)
   _wrapper(check)
   # ---------------- R-SCOPE
   _scope(check)
@@ -189,6 +190,41 @@ def _debug_fold(check: Check, fi: FuncInfo):
   check.ob('R-FOLD', fi, 'debug backend fold', ok and order_ok,
            f'each user function is called at exactly one site ({detail}); init dominates step and final; step runs in the '
            f'batch loop, final after it (ok={order_ok})')
+
+
+def _shim_leaves(check: Check):
+  """R-LEAF.scalar: the pmap placement shims map over the leaves of user pytrees (shared input, per-client inputs), and the jit and
+  debug backends accept Python scalars as leaves. A function mapped over those leaves may therefore pass a leaf to array functions
+  (jnp.stack, jnp.asarray ...) but never read an attribute of it (`a.shape`, `a.dtype`, `a.astype`): a float has none."""
+  repo = check.repo
+  n = 0
+  for name in ('_device_put_sharded', '_device_put_replicated'):
+    try:
+      fi = repo.func(MOD, name)
+    except Exception:
+      fi = None
+    if fi is None:
+      continue   # the shim is a repair of this checker's finding; its absence is decided by R-API
+    ff = FuncFlow.of(repo, fi)
+    check.analysed(fi)
+    for _, c in ff.calls():
+      if ff.ext(c.func) not in ('jax.tree_util.tree_map', 'jax.tree_map', 'jax.tree.map') or not c.args:
+        continue
+      fn = c.args[0]
+      if not isinstance(fn, ast.Lambda):
+        continue
+      n += 1
+      a = fn.args
+      leaves = {x.arg for x in a.posonlyargs + a.args} | ({a.vararg.arg} if a.vararg else set())
+      bad = [x for x in ast.walk(fn.body) if isinstance(x, ast.Attribute) and isinstance(x.value, ast.Name) and x.value.id in leaves]
+      # elements of *xs: `for x in xs` / xs[0] followed by an attribute
+      bad += [x for x in ast.walk(fn.body) if isinstance(x, ast.Attribute) and isinstance(x.value, ast.Subscript) and
+              isinstance(x.value.value, ast.Name) and x.value.value.id in leaves]
+      check.ob('R-LEAF.scalar', fi, f'tree_map({txt(fn)[:70]}, ...)', not bad,
+               'the mapped function hands leaves to array functions only' if not bad else
+               f'`{txt(bad[0])}` reads an attribute of a leaf; leaves of the shared / client input may be Python scalars (the jit and debug '
+               'backends accept them), so the pmap backend alone fails on such inputs', node=bad[0] if bad else fn, exact=True)
+  check.floor('R-LEAF.scalar', 'placement shims mapped over user leaves', n, 2)
 
 
 def _pmap(check: Check):
